@@ -393,7 +393,7 @@ def run_property(prop, tier, out, binary=None):
     # 1. spec -> impl, exhaustive transition set at depth 2 (and 1), toured
     edges2, r2 = gen_edges(wd, "d2", 2, [1, 2] if (quick and "override" in ops) else [0, 1, 2], 2, 5, ops)
     prefer = {"C08": ["override", "init"]}.get(prop)
-    steps = {"C06": 6000, "C08": 5000, "C15": 3000, "C07": 2000}[prop] if quick else len(edges2) + 2000
+    steps = {"C06": 6000, "C08": 5000, "C15": 3000, "C07": 2000}[prop] if quick else min(len(edges2) + 2000, 40000)   # (thorough: every transition up to 40 000 calls)
     sc, cov = walk(edges2, 2, rnd, steps, prefer)
     scenarios.append(("tour-d2", sc, ["full", "optimal", "pm"] if not quick else ["full", "optimal", "pm"]))
     out.notes.append(f"depth-2 transition tour: {len(edges2)} model transitions emitted by TLC, {cov} distinct covered by a {len(sc) - 1}-call walk")
